@@ -14,6 +14,7 @@ pub mod c03;
 pub mod c04;
 pub mod c05;
 pub mod c06;
+pub mod c07;
 pub mod c09;
 pub mod c10;
 pub mod c11;
@@ -33,6 +34,7 @@ pub fn create(a: &Args) -> Option<Box<dyn Monitor>> {
         "C04" => Some(Box::new(c04::C04::new(a))),
         "C05" => Some(Box::new(c05::C05::new(a))),
         "C06" => Some(Box::new(c06::C06::new(a))),
+        "C07" => Some(Box::new(c07::C07::new(a))),
         "C09" => Some(Box::new(c09::C09::new(a))),
         "C10" => Some(Box::new(c10::C10::new(a))),
         "C11" => Some(Box::new(c11::C11::new(a))),
